@@ -15,7 +15,7 @@ export function* generate({ tier, seed }) {
     const out = { decls: [], ops: [] };
     const e = encodeEmits(rng, names, out);
     const order = rng.pick(['before', 'before', 'after', 'mixed']);
-    const local = rng.bool(0.12);
+    const local = rng.bool(0.2) ? rng.pick(['fnDecl', 'arrow', 'fnExpr', 'iife', 'objMethod', 'classMethod']) : false;
     const second = rng.pick(['ident', 'object', 'array', 'none', 'plainAnnotation', 'identNoAnn']);
     const fnForm = rng.pick(['arrow', 'function']);
     let p2, expectEmits = true;
@@ -30,9 +30,42 @@ export function* generate({ tier, seed }) {
     const src = assembleModule(rng, { decls: out.decls, call: `defineComponent(${setup})`, imports: ['defineComponent', 'SetupContext'], order, local });
     yield {
       gid: `C19-${i}`, src, syntax: 'tsx', spec: { names: expectEmits ? names : null },
-      feature: `${out.ops.join('+')}|k=${k}|${order}|${local ? 'local' : 'module'}|${second}|${fnForm}|${names.some((x) => /[:-]/.test(x)) ? 'punct' : 'plain'}`,
+      feature: `${out.ops.join('+')}|k=${k}|${order}|${local || 'module'}|${second}|${fnForm}|${names.some((x) => /[:-]/.test(x)) ? 'punct' : 'plain'}`,
       variants: [{ vid: 'v0', options: { resolveType: true } }],
     };
+  }
+  yield* sharedBaseModules(rng, tier);
+}
+
+function* sharedBaseModules(rng, tier) {
+  const n = tier === 'quick' ? 300 : 4000;
+  const q = (x) => JSON.stringify(x);
+  for (let i = 0; i < n; i++) {
+    const pool = rng.shuffle(EVENT_NAMES);
+    const baseNames = pool.slice(0, 1 + rng.int(2));
+    const rest = pool.slice(3);
+    const baseForm = rng.pick(['interfaceCallSig', 'aliasCallSig', 'interfaceProps', 'aliasProps', 'fnAlias']);
+    const props = baseForm.endsWith('Props');
+    const member = (x) => (props ? `${/^[A-Za-z_$][\w$]*$/.test(x) ? x : q(x)}: [v: string]` : `(e: ${q(x)}): void`);
+    const decls = [];
+    if (baseForm.startsWith('interface')) decls.push(`interface Base { ${baseNames.map(member).join('; ')} }`);
+    else if (baseForm === 'fnAlias') decls.push(`type Base = (e: ${baseNames.map(q).join(' | ')}) => void;`);
+    else decls.push(`type Base = { ${baseNames.map(member).join('; ')} };`);
+    const k = 2 + rng.int(2);
+    const comps = [];
+    for (let c = 0; c < k; c++) {
+      const own = [rest[c % rest.length]];
+      const how = baseForm === 'fnAlias' ? 'intersection' : rng.pick(['extends', 'extends', 'intersection', 'sameTwice', 'diamond']);
+      let e;
+      if (how === 'extends') { decls.push(`interface E${c} extends Base { ${own.map(member).join('; ')} }`); e = `E${c}`; comps.push({ e, names: [...baseNames, ...own] }); }
+      else if (how === 'intersection') { e = `Base & { ${own.map((x) => (baseForm === 'fnAlias' ? `(e: ${q(x)}): void` : member(x))).join('; ')} }`; comps.push({ e, names: [...baseNames, ...own] }); }
+      else if (how === 'sameTwice') { e = 'Base'; comps.push({ e, names: [...baseNames] }); }
+      else { decls.push(`interface L${c} extends Base {}`, `interface R${c} extends Base { ${own.map(member).join('; ')} }`, `interface D${c} extends L${c}, R${c} {}`); e = `D${c}`; comps.push({ e, names: [...baseNames, ...own] }); }
+    }
+    const order = rng.pick(['before', 'after']);
+    const calls = comps.map((c, j) => `export const C${j} = defineComponent((props: {}, ctx: SetupContext<${c.e}>) => () => null);`);
+    const src = `import { defineComponent, SetupContext } from "vue";\n${order === 'before' ? decls.join('\n') + '\n' + calls.join('\n') : calls.join('\n') + '\n' + decls.join('\n')}\n`;
+    yield { gid: `C19-shared-${i}`, src, syntax: 'tsx', spec: { multi: comps.map((c) => c.names) }, feature: `shared|${baseForm}|k=${k}|${order}|${i % 50}`, variants: [{ vid: 'v0', options: { resolveType: true } }] };
   }
 }
 
@@ -53,6 +86,17 @@ export async function check(group, records) {
       return [violated({ ...base, oracle: 'module loads', sig: `C19/load-error/${error.name}`, detail: error })];
     }
     const calls = rt.log.filter((e) => e.k === 'defineComponent');
+    if (group.spec.multi) {
+      if (calls.length !== group.spec.multi.length) return [inconclusive({ ...base, reason: `expected ${group.spec.multi.length} defineComponent calls, saw ${calls.length}` })];
+      const outs = [];
+      group.spec.multi.forEach((names, j) => {
+        const emits = (calls[j].extraOptions || {}).emits;
+        const got = Array.isArray(emits) ? [...new Set(emits)].sort() : null, exp = [...names].sort();
+        if (JSON.stringify(got) !== JSON.stringify(exp)) outs.push(violated({ ...base, feature: `${group.feature}|c${j}`, oracle: 'every component gets its own complete emits', sig: `C19/emits-differ/shared-base/component-${j === 0 ? 'first' : 'later'}/${group.feature.split('|')[1]}`, detail: { component: j, got, expected: exp } }));
+        else outs.push(held({ ...base, feature: `${group.feature}|c${j}`, events: { defineComponent: 1, emits_names: exp.length } }));
+      });
+      return outs;
+    }
     if (calls.length !== 1) return [inconclusive({ ...base, reason: `expected 1 defineComponent call, saw ${calls.length}` })];
     const opts = calls[0].extraOptions || {};
     const expected = group.spec.names;
